@@ -121,9 +121,21 @@ class SystemModel:
 
 
 class LogModel:
+    """component the interpreter does not look into: calls on it are logged by natives; any direct
+    field access from interpreted code is outside the subset"""
+
     def __init__(self, name):
         self.name = name
         self.events = []
+
+    def __getitem__(self, k):
+        raise Unsupported(f"field access into opaque component {self.name}")
+
+    def __setitem__(self, k, v):
+        raise Unsupported(f"field store into opaque component {self.name}")
+
+    def field_box(self, interp, idx, ty):
+        raise Unsupported(f"field access into opaque component {self.name} ({ty})")
 
 
 class ProcessModel:
